@@ -159,7 +159,8 @@ def gen_ops(rng, tier, ctx=None):
     thor = tier == "thorough"
     E = exps(rng, tier)
     redc_thr = sorted(set([T["REDC_1_TO_REDC_N_THRESHOLD"], T["REDC_1_TO_REDC_2_THRESHOLD"], T["REDC_2_TO_REDC_N_THRESHOLD"]]))
-    mul_thr = sorted(set([T["MUL_KARATSUBA_THRESHOLD"], T["SQR_KARATSUBA_THRESHOLD"], T["MULLOW_DC_THRESHOLD"], T["DC_BDIV_Q_THRESHOLD"]]))
+    mul_thr = sorted(set([T["MUL_KARATSUBA_THRESHOLD"], T["SQR_KARATSUBA_THRESHOLD"], T["MULLOW_DC_THRESHOLD"], T["DC_BDIV_Q_THRESHOLD"],
+                          T["POWM_THRESHOLD"], T["MUL_TOOM3_THRESHOLD"], T["DC_DIV_QR_THRESHOLD"]]))
 
     # --- the section-6 defect and its neighbours (always)
     yield "mpz_powm 0 -ffffffffffffffffffffffffffffffff 1 100000000000000000000000000000000"
